@@ -67,7 +67,7 @@ fn slice_calls(t: &mut Tape, cx: &mut Cx) -> Result<(), String> {
     let a = if t.chance(1, 6) { usize::MAX - base + t.idx(8) } else { xarg(t, len) };
     let b = xarg(t, len);
     mark(cx, &[a as u64, b as u64]);
-    let call = t.below(30);
+    let call = t.below(32);
     note!(cx, "slice(len {}) call {} args ({:#x}, {:#x})", len, call, a, b);
     cx.label("slice_level");
     let mut buf = vec![0u8; t.idx(40)];
@@ -140,6 +140,25 @@ fn slice_calls(t: &mut Tape, cx: &mut Cx) -> Result<(), String> {
                 if let Ok(d) = s.get_slice(a.min(len), len - a.min(len)) {
                     ar.copy_to_volatile_slice(d);
                 }
+            }
+        }
+        30 => {
+            // derivations with the crate's zero-sized element types: any offset, any count
+            drop(s.get_array_ref::<[u8; 0]>(a, b));
+            drop(s.get_array_ref::<[u64; 0]>(a, b));
+            drop(s.get_ref::<[u8; 0]>(a));
+            drop(s.get_ref::<[u32; 0]>(b));
+        }
+        31 => {
+            // ... and copies of them (no bytes are named)
+            let mut z8 = vec![[0u8; 0]; t.idx(5)];
+            let _ = s.copy_to(&mut z8);
+            s.copy_from(&z8);
+            if let Ok(ar) = s.get_array_ref::<[u16; 0]>(a.min(len), b) {
+                let mut z16 = vec![[0u16; 0]; t.idx(5)];
+                let _ = ar.copy_to(&mut z16);
+                ar.copy_from(&z16);
+                let _ = ar.to_slice();
             }
         }
         _ => {
@@ -455,7 +474,7 @@ pub fn property() -> Property {
     Property {
         id: "C07",
         rule: "a case = 1..3 calls, each one public access/query entry point (VolatileSlice/VolatileMemory/Bytes at slice level, GuestMemoryRegion + Bytes at region level, GuestMemory incl. try_access with callbacks returning in-range/zero/out-of-range lengths + Bytes at guest level on GuestMemoryMmap and on a default-method mock that can own the top of the address space, AtomicBitmap/BaseSlice/Option/() incl. wrapping nested slices, stream helpers with counts up to usize::MAX and cursor positions up to u64::MAX, address arithmetic) with arguments from {0, small, len, len+-1, 2^32+-k, isize::MAX+-k, 2^63+-k, usize::MAX-k, usize::MAX/k, pointer-overflowing, uniform}; oracle: the call returns - no panic (any panic raised in /repo fails the case), no signal, no hang; run in builds with and without overflow checks and in the xen build; non-trivial = at least one argument >= 2^63 / within 16 of usize::MAX or isize::MAX, or a pair whose sum overflows, or an out-of-range try_access callback; distinct = decoded (call, arguments, layout)",
-        assumptions: &["documented program-logic panics are excluded by construction: out-of-range ref_at/load/store indices, unchecked_* helpers, non-power-of-two alignments, enlarge overflow, zero-sized element copies (C18)", "real buffers are capped at 64 KiB; count/length parameters are not capped"],
+        assumptions: &["documented program-logic panics are excluded by construction: out-of-range ref_at/load/store indices, unchecked_* helpers, non-power-of-two alignments, enlarge overflow", "real buffers are capped at 64 KiB; count/length parameters are not capped"],
         subchecks: vec![
             SubCheck { name: "calls", builds: &[Build::Std, Build::Plain, Build::Xen], kind: Kind::Random { quick: 200_000, thorough: 12_000_000, max_words: 48 }, run: run_std },
             SubCheck { name: "xen_regions", builds: &[Build::Xen], kind: Kind::Random { quick: 20_000, thorough: 1_000_000, max_words: 48 }, run: run_xen },
